@@ -25,7 +25,8 @@ var boundedFor = map[string][]string{
 	"C06": {"cache_search_test.go.txt"}, "C07": {"cache_search_test.go.txt"},
 	"C03": {"assumed_contracts_test.go.txt"}, "C13": {"assumed_contracts_test.go.txt"}, "C14": {"assumed_contracts_test.go.txt"},
 	"C17": {"filter_search_test.go.txt", "assumed_contracts_test.go.txt"}, "C18": {"filter_search_test.go.txt", "assumed_contracts_test.go.txt"},
-	"C19": {"assumed_contracts_test.go.txt"},
+	"C20": {"typed_layer_pod_test.go.txt"},
+	"C19": {"typed_filter_search_test.go.txt", "assumed_contracts_test.go.txt"},
 }
 
 func runBoundedHarnesses(e *engine, prop string) ([]map[string]interface{}, []boundedResult) {
